@@ -164,6 +164,7 @@ class Tr:
         self.consts = _consts()
         self.n = 0
         self.notes = []
+        self.helpers = {}
         self.handler_names = {h.name for h in ast.walk(fn) if isinstance(h, ast.ExceptHandler) and h.name}
         self.unit_fn = not any(isinstance(r, ast.Return) and r.value is not None for r in _walk_no_defs(fn.body))
 
@@ -400,6 +401,36 @@ class Tr:
 
     def call(self, e):
         f = e.func
+        # C(**kwargs): creating an instance of a run-time class
+        if not e.args and len(e.keywords) == 1 and e.keywords[0].arg is None and not (
+                isinstance(f, ast.Attribute) and f.attr == "bind") and not (isinstance(f, ast.Name) and f.id in self.helpers):
+            b0, c = self.val(f)
+            b1, kw = self.val(e.keywords[0].value)
+            t = self.fresh()
+            return b0 + b1 + [(t, "w_new w %s (PTuple []) %s" % (c, kw))], t, "val"
+        # a local single-expression helper: inlined
+        if isinstance(f, ast.Name) and f.id in self.helpers:
+            params, body, env0 = self.helpers[f.id]
+            if e.keywords or len(e.args) != len(params) or any(isinstance(a, ast.Starred) for a in e.args):
+                raise Unsupported("call of the local helper %s" % f.id)
+            binds, saved = [], dict(self.env)
+            argv = []
+            for a in e.args:
+                b, x, srt = self.expr(a)
+                binds += b
+                argv.append((x, srt))
+            try:
+                self.env = dict(env0)
+                for pn, (x, srt) in zip(params, argv):
+                    self.env[pn] = (x, srt)
+                b, a, srt = self.expr(body)
+            finally:
+                self.env = saved
+            return binds + b, a, srt
+        # str(e)
+        if isinstance(f, ast.Name) and f.id == "str" and f.id not in self.env and len(e.args) == 1 and not e.keywords:
+            b, a = self.text(e.args[0])
+            return b, a, "str"
         if isinstance(f, ast.Name) and f.id not in self.env:
             n = f.id
             if n == "getattr" and not e.keywords and len(e.args) in (2, 3):
@@ -410,10 +441,7 @@ class Tr:
                     b1, k = self.val(e.args[1])
                     bd, d = self.val(e.args[2]) if len(e.args) == 3 else ([], None)
                     t = self.fresh()
-                    if self.is_self(e.args[0]):
-                        op = "self_getattr_dyn h %s %s" % (k, "(Some %s)" % d if d else "None")
-                    else:
-                        op = "lift (obj_getattr_dyn h %s %s %s)" % (o, k, "(Some %s)" % d if d else "None")
+                    op = "getattr_dynM h %s %s %s" % (o, k, "(Some %s)" % d if d else "None")
                     return b0 + b1 + bd + [(t, op)], t, "val"
                 if self.is_self(e.args[0]):
                     t = self.fresh()
@@ -589,6 +617,8 @@ class Tr:
                 if s in ("val", "bound"):
                     if isinstance(e.args[1], ast.Name) and e.args[1].id in KNOWN_CLASSES and e.args[1].id not in self.env:
                         return self.seq(b, "ret (py_isinstance %s [%s])" % (a, KNOWN_CLASSES[e.args[1].id]))
+                    if isinstance(e.args[1], ast.Name) and e.args[1].id == "Mapping" and e.args[1].id not in self.env:
+                        return self.seq(b, "lift (py_is_mapping h %s)" % a)
                     b2, a2 = self.val(e.args[1])
                     return self.seq(b + b2, "lift (obj_isinstance_of h %s %s)" % (a, a2))
                 raise Unsupported("isinstance of a %s" % s)
@@ -600,9 +630,7 @@ class Tr:
                 if isinstance(e.args[1], ast.Name) and e.args[1].id in self.env:
                     b0, o = self.val(e.args[0])
                     b1, k = self.val(e.args[1])
-                    if self.is_self(e.args[0]):
-                        return self.seq(b0 + b1, "self_hasattr_dyn h %s" % k)
-                    return self.seq(b0 + b1, "lift (obj_hasattr_dyn h %s %s)" % (o, k))
+                    return self.seq(b0 + b1, "hasattr_dynM h %s %s" % (o, k))
                 name = self.attr_name(e.args[1])
                 if self.is_self(e.args[0]):
                     return '(self_hasattr h (s2p "%s"))' % name
@@ -685,6 +713,17 @@ class Tr:
             b, a = self.val(s.value)
             return self.seq(b, "ret %s" % a)
         if isinstance(s, ast.FunctionDef):
+            a = s.args
+            if len(s.body) == 1 and isinstance(s.body[0], ast.Return) and s.body[0].value is not None and not s.decorator_list \
+                    and not (a.vararg or a.kwarg or a.kwonlyargs or a.defaults or a.posonlyargs):
+                params = [x.arg for x in a.args]
+                free = loaded([s.body[0]]) - set(params)
+                later = assigned(rest)
+                if free & later:
+                    raise Unsupported("local helper %s reads %s, re-bound after its definition" % (s.name, sorted(free & later)))
+                self.helpers[s.name] = (params, s.body[0].value, dict(self.env))
+                self.note("local helper %s (a single return expression) is inlined at its calls" % s.name)
+                return nxt()
             raise Unsupported("nested function %s" % s.name)
         if isinstance(s, ast.If):
             return self.stmt_if(s, rest, k)
@@ -776,6 +815,12 @@ class Tr:
             self.env = dict(before)
             te = self.block(rest, k)
             return "(c <~ %s ;;\n   if c then %s\n   else %s)" % (c, tb, te)
+        if self.terminal(s.body) and self.terminal(s.orelse):
+            tb = self.block(s.body, lambda: "(raiseM (mk_exc Unmodelled []))")
+            self.env = dict(before)
+            te = self.block(s.orelse, lambda: "(raiseM (mk_exc Unmodelled []))")
+            self.env = dict(before)
+            return "(c <~ %s ;;\n   if c then %s\n   else %s)" % (c, tb, te)
         touched = assigned(s.body) | assigned(s.orelse)
         mods = sorted(m for m in touched if m in before and before[m][0] != "POISON")
         sorts = {}
@@ -828,6 +873,20 @@ class Tr:
             raise Unsupported("handler at line %d reads a local the try body binds" % h.lineno)
         h_term = self.terminal(h.body)
         b_term = self.terminal(s.body)
+        if b_term and h_term:
+            # both leave the function: the try statement is all that remains
+            self.env = dict(before)
+            tb = self.block(s.body, lambda: "(raiseM (mk_exc Unmodelled []))")
+            self.env = dict(before)
+            ex = "_"
+            if h.name:
+                ex = self.fresh("v_%s_" % h.name)
+                self.env[h.name] = (ex, "exc")
+            th = self.block(h.body, lambda: "(raiseM (mk_exc Unmodelled []))")
+            self.env = dict(before)
+            return "(tryM %s %s (fun %s => %s))" % (tb, pats, ex, th)
+        if b_term:
+            raise Unsupported("try body at line %d always leaves, its handler falls through" % s.lineno)
         if not h_term and a_body and not (len(s.body) == 1 and isinstance(s.body[0], ast.Assign)):
             raise Unsupported("try body at line %d binds locals before it may raise, and its handler falls through" % s.lineno)
         if h_term:
@@ -907,6 +966,7 @@ class Target:
         self.method = method
         self.star = star              # (vararg, kwarg) names for `*args, **kwargs`
         self.unit = True
+        self.defaults_ok = False
 
     def origin(self):
         return "%s::%s%s" % (os.path.basename(self.path), (self.cls + ".") if self.cls else "", self.pyname)
@@ -920,6 +980,16 @@ def _targets():
         Target(STRUCTURES, "Structure", "_set_defaults", "Structure__set_defaults",
                [("defaults_fields", "val"), ("field_by_name", "val")]),
         Target(STRUCTURES, "Structure", "__init__", "Structure__init", [], star=("args", "kwargs")),
+    ]
+
+
+def _entry_targets():
+    return [
+        Target(STRUCTURES, "Structure", "shallow_clone_with_overrides", "Structure__shallow_clone_with_overrides", [],
+               star=(None, "kw")),
+        Target(STRUCTURES, "Structure", "cast_to", "Structure__cast_to", [("cls", "val")]),
+        Target(STRUCTURES, "Structure", "from_other_class", "Structure__from_other_class",
+               [("cls", "val"), ("source_object", "val"), ("ignore_props", "val")], star=(None, "kw")),
     ]
 
 
@@ -940,12 +1010,19 @@ def translate(tg, done):
     if tg.cls and not is_static:
         if not pyargs:
             raise Unsupported("method without self")
-        self_name = pyargs[0]
-        pyargs = pyargs[1:]
         if is_cm:
-            raise Unsupported("classmethod")
-    if pyargs != [p for p, _ in tg.params] or a.kwonlyargs or a.defaults or a.posonlyargs:
-        raise Unsupported("parameters of %s are %s" % (tg.pyname, pyargs))
+            pass                      # the class is an ordinary (value) parameter
+        else:
+            self_name = pyargs[0]
+            pyargs = pyargs[1:]
+    kwonly = [x.arg for x in a.kwonlyargs]
+    for d in list(a.kw_defaults) + list(a.defaults):
+        if d is not None and not (isinstance(d, ast.Constant) and d.value is None):
+            raise Unsupported("parameter default %s" % ast.unparse(d)[:30])
+    if a.defaults and len(a.defaults) != 0 and not tg.defaults_ok:
+        raise Unsupported("positional defaults")
+    if pyargs + kwonly != [p for p, _ in tg.params] or a.posonlyargs:
+        raise Unsupported("parameters of %s are %s" % (tg.pyname, pyargs + kwonly))
     star = (a.vararg.arg if a.vararg else None, a.kwarg.arg if a.kwarg else None)
     if (tg.star or (None, None)) != star:
         raise Unsupported("star parameters of %s are %s" % (tg.pyname, star))
@@ -953,6 +1030,8 @@ def translate(tg, done):
     sig = ["(%s : %s)" % (p, SORT_TY[s]) for p, s in tg.params]
     if tg.star:
         for p in tg.star:
+            if p is None:
+                continue
             params[p] = (p, "val")
             sig.append("(%s : pyval)" % p)
     tr = Tr(node, params, _module_names(tree), {t.pyname: t for t in done}, self_name)
@@ -977,11 +1056,22 @@ Local Open Scope string_scope.
 """
 
 
-def render():
-    lines = [HEADER]
+ENTRY_HEADER = """(* GENERATED by harness/genmods/py2v_init.py from /repo/typedpy/structures/structures.py.  Do not edit.
+   The entry points that build an instance from another one: the keyword arguments they compute and the constructor
+   call `C( **kwargs)` they end in ([w_new] of the world), in the state monad of Base/PyOpsInit.v (state: the __dict__
+   of `self`, read only).  Struct/EntrySrcProofs.v proves them equal to the entry-point model of Struct/Entry.v. *)
+From Coq Require Import ZArith NArith String List. Import ListNotations.
+From TP Require Import Base.PyVal Base.PyOps Base.PyOps2 Base.PyObj Base.PyOpsInit.
+From TP Require Base.PyOpsVersioned Base.PyOpsFields Base.PyOpsDerive.
+Local Open Scope string_scope.
+"""
+
+
+def _render(header, targets):
+    lines = [header]
     status = {}
     done = []
-    for tg in _targets():
+    for tg in targets:
         try:
             text = translate(tg, done)
             status[tg.coqname] = "ok"
@@ -1000,7 +1090,18 @@ def render():
     return "\n".join(lines), status
 
 
+def render():
+    return _render(HEADER, _targets())
+
+
+def render_entries():
+    return _render(ENTRY_HEADER, _entry_targets())
+
+
 def regenerate():
     text, status = render()
     core.write_if_changed(os.path.join(core.COQDIR, "theories", "Gen", "InitSrc.v"), text)
+    text2, status2 = render_entries()
+    core.write_if_changed(os.path.join(core.COQDIR, "theories", "Gen", "EntrySrc.v"), text2)
+    status.update(status2)
     return status
